@@ -200,6 +200,19 @@ func subRSA(out string, seed uint64, tier string, arg string) {
 		certOp(rsaVariants[0], new(big.Int).Mul(big.NewInt(d), cof), 65537, 0)
 	}
 	certOp(rsaVariants[0], cof, 65537, 0)
+	// the property itself, on the real code and independently of the table: every d in 2..751 times the (small-factor free) cofactor
+	// has a factor below 752 and must be reported; the cofactor alone and 757 / 761 times it must not
+	for d := int64(2); d < 752; d++ {
+		rep.Evaluations++
+		if util.PrimeNoSmallerThan752(new(big.Int).Mul(big.NewInt(d), cof)) {
+			rep.violate(Violation{"C16", fmt.Sprintf("PrimeNoSmallerThan752 reports no factor below 752 for %d * (a number without small factors)", d), "small-factor-missed", map[string]interface{}{"d": d, "cofactor": cof.String()}})
+		}
+	}
+	for _, d := range []int64{1, 757, 761, 757 * 761} {
+		if !util.PrimeNoSmallerThan752(new(big.Int).Mul(big.NewInt(d), cof)) {
+			rep.violate(Violation{"C16", fmt.Sprintf("PrimeNoSmallerThan752 reports a factor below 752 for %d * (a number without small factors)", d), "small-factor-invented", map[string]interface{}{"d": d, "cofactor": cof.String()}})
+		}
+	}
 	for _, p := range util.VerifPrimes() {
 		n := new(big.Int).Mul(big.NewInt(p), cof)
 		if util.PrimeNoSmallerThan752(n) {
